@@ -72,6 +72,13 @@ def build(tier, seed):
                        write_script(route, method, wobj),
                        common.handler_names(wobj))
     leafs.add(chk, ['cas.consumer', 'consumer.update'])
+    # _set_allocations bumps the generation of every provider and consumer
+    # the request names exactly once, inside the write transaction, and
+    # nobody else's (inductive proof of its two generation loops, shared
+    # with C01)
+    import C01
+    chk.script('set_allocations', C01.script_set,
+               ['placement/objects/allocation.py:_set_allocations'])
     chk.replayer('', replay_c06)
     chk.fallback('B4.c06.races', lambda: replay_c06(None),
                  '5 scenarios on the real WSGI stack: same-generation writers, '
